@@ -46,5 +46,15 @@ GaussTable == [kind |-> "gauss",
                axes |-> ({[shape10 |-> a.shape10, scale10 |-> a.scale10, shift10 |-> a.shift10,
                                    n |-> GaussShapePx(a.shape10, a.scale10), c |-> GaussCentre(a.shape10, a.scale10, a.shift10)] : a \in GaussAxes})]
 GaussLaw == \A a \in GaussAxes : GaussShapePx(a.shape10, a.scale10) >= 1 /\ GaussSymmetric(a.shape10, a.scale10)
-EmitUnits == (done /\ cfg = CHOOSE c \in [kind : {"assoc"}, e : Assoc, s2 : {1}] : TRUE) => (PrintT(ToJson(Units)) /\ PrintT(ToJson(GaussTable)))
+(* point clouds in quarter pixels, explicit centres; every (a - c) component is odd, so no atom sits on a bin edge *)
+Clouds == << <<<<1, 3, -5>>, <<9, -7, 3>>, <<-11, 5, 7>>, <<3, 3, 3>>>>,
+             <<<<21, 1, 1>>, <<-19, 3, -1>>, <<1, 15, 9>>, <<5, -13, -9>>, <<7, 7, -3>>>>,
+             <<<<1, 1, 1>>, <<-1, -1, -1>>>> >>
+Centres == {<<0, 0, 0>>, <<2, -4, 6>>, <<-8, 8, 0>>}
+AtomCases == {[cloud |-> i, c4 |-> c] : i \in 1..Len(Clouds), c \in Centres}
+AtomsLaw == \A x \in AtomCases : OffEdges(Clouds[x.cloud], x.c4) /\ AtomsSize(Clouds[x.cloud], x.c4) >= 1
+AtomsTable == [kind |-> "atoms",
+               cases |-> {[atoms4 |-> Clouds[x.cloud], c4 |-> x.c4, w |-> [i \in 1..Len(Clouds[x.cloud]) |-> 1 + (i % 3)],
+                           hist |-> AtomsHist(Clouds[x.cloud], [i \in 1..Len(Clouds[x.cloud]) |-> 1 + (i % 3)], x.c4)] : x \in AtomCases}]
+EmitUnits == (done /\ cfg = CHOOSE c \in [kind : {"assoc"}, e : Assoc, s2 : {1}] : TRUE) => (PrintT(ToJson(Units)) /\ PrintT(ToJson(GaussTable)) /\ PrintT(ToJson(AtomsTable)))
 =============================================================================
